@@ -29,10 +29,21 @@ def c16_cases():
                 yield sw, ch, sr, n
 
 
+FLOAT_SENSITIVE = ((1001, 8000), (1003, 16000), (15, 44100), (23, 22050), (27, 48000), (21, 1234), (30, 44100), (1005, 8000))
+
+
 def check_c16(budget):
     from auditok.core import AudioRegion
     t0 = time.time()
     ev = 0
+    # lengths / rates for which n / rate * rate is not n in binary floating point
+    for n, sr in FLOAT_SENSITIVE:
+        for sw, ch in ((2, 1), (1, 2)):
+            ev += 1
+            r = AudioRegion(bytes(n * sw * ch), sr, sw, ch)
+            if len(r) != n or len(r[:]) != n or len(r[1:]) != n - 1:
+                return {"kind": "region", "pid": "C16", "op": "len", "args": [n, sr, sw, ch],
+                        "observed": "len()=%d, len(r[:])=%d, len(r[1:])=%d for %d samples" % (len(r), len(r[:]), len(r[1:]), n)}, ev
     for sw, ch, sr, n in c16_cases():
         data = mkdata(n, sw, ch)
         r = AudioRegion(data, sr, sw, ch)
@@ -130,6 +141,29 @@ def check_c17(budget):
     t0 = time.time()
     ev = 0
     fmts = ((1, 1), (2, 1), (2, 2), (4, 3))
+    # division at lengths / rates for which n / rate * rate is not n in binary floating point
+    for n, sr in FLOAT_SENSITIVE:
+        data = mkdata(n, 2, 2)
+        r = AudioRegion(data, sr, 2, 2)
+        for k in (1, 2, 4, 7, n, n + 3):
+            ev += 1
+            parts = r / k
+            lens = [len(p) for p in parts]
+            if b"".join(bytes(p) for p in parts) != data or len(parts) != min(k, n) or max(lens) - min(lens) > 1:
+                return {"kind": "region", "pid": "C17", "op": "div", "args": [n, k, sr, 2, 2],
+                        "observed": "%d pieces of lengths %r for %d samples" % (len(parts), lens, n)}, ev
+    # join accepts any iterable of regions, also one that can be traversed only once
+    for sw, ch in fmts:
+        regs = [AudioRegion(mkdata(n, sw, ch), 16, sw, ch) for n in (3, 0, 2)]
+        sep = AudioRegion(mkdata(1, sw, ch), 16, sw, ch)
+        exp = bytes(sep).join(bytes(x) for x in regs)
+        for nm, mkit in (("list", lambda: list(regs)), ("tuple", lambda: tuple(regs)), ("generator", lambda: (x for x in regs)),
+                         ("iterator", lambda: iter(regs)), ("map", lambda: map(lambda x: x, regs))):
+            ev += 1
+            got = sep.join(mkit())
+            if bytes(got) != exp:
+                return {"kind": "region", "pid": "C17", "op": "join-iterable", "args": [nm, sw, ch],
+                        "observed": "join over a %s gives %d bytes, expected %d" % (nm, len(bytes(got)), len(exp))}, ev
     for sw, ch in fmts:
         for sr in (10, 16):
             for n in range(0, 7):
